@@ -1112,6 +1112,11 @@ def broadcast_and_apply(  # noqa: C901
                 if numoutputs is not None:
                     assert numoutputs == len(outcontents[-1])
                 numoutputs = len(outcontents[-1])
+            if numoutputs is None:
+                raise ValueError(
+                    "cannot broadcast records without fields"
+                    + exception_suffix(__file__)
+                )
             return tuple(
                 ak.layout.RecordArray(
                     [x[i] for x in outcontents], None if istuple else keys, length
